@@ -3,7 +3,7 @@
 //   (parse <ok|err|panic> <same-outcome-twice 0|1>
 //          (ranges (c r1 c1 r2 c2) (a r1 c1 r2 c2) ...)     cause / annotation ranges, as the report gives them
 //          <nlines> (linelens ...) (linewidths ...)          line table of the newline-terminated input
-//          (flags <fmtpanic>? <msgpanic>? <emptyreport>? <nokind>?)
+//          (flags <fmtpanic>? <msgpanic>? <emptyreport>? <nokind>? <ioread>?)
 //          (info <nerr> <ngraphemes> <ms>)                   diagnostics, ignored by the judge
 //          (hook off | <n> (<site> <before> <after> <len>)...))   replay log of the guarded hook (first run), see below
 // nlines / linelens / linewidths are computed the way the parser and TextFormatter do it:
@@ -29,6 +29,13 @@ fn hook_take() -> String {
 fn hook_start() {}
 #[cfg(not(feature = "c09hook"))]
 fn hook_take() -> String { "(hook off)".to_string() }
+
+// Number of read-type system calls this process has issued so far (/proc/self/io, `syscr`): parsing is supposed to
+// depend on nothing but the text, so the two parses must not add any (flag `ioread` otherwise).
+fn syscr() -> Option<u64> {
+  let s = std::fs::read_to_string("/proc/self/io").ok()?;
+  s.lines().find_map(|l| l.strip_prefix("syscr:").and_then(|v| v.trim().parse::<u64>().ok()))
+}
 
 #[derive(PartialEq)]
 enum Outcome {
@@ -71,16 +78,21 @@ pub fn line_table(src: &str) -> (usize, Vec<usize>, Vec<usize>, usize) {
 pub fn mode_parse(j: &J) -> String {
   let src = j["src"].as_str().unwrap_or("");
   let t0 = std::time::Instant::now();
+  let (io0, io1) = (syscr(), syscr());          // io1 - io0 = what one call of syscr() itself costs
   hook_start();
   let a = run_once(src);
   let hook = hook_take();
   let b = run_once(src);
+  let io2 = syscr();
   let ms = t0.elapsed().as_millis();
   let same = if a == b { 1 } else { 0 };
   let (nlines, lens, widths, ng) = line_table(src);
   let mut flags: Vec<&str> = vec![];
   let mut ranges: Vec<String> = vec![];
   let mut nerr = 0usize;
+  if let (Some(x0), Some(x1), Some(x2)) = (io0, io1, io2) {
+    if x2 - x1 != x1 - x0 { flags.push("ioread"); }
+  }
   let tag = match &a {
     Outcome::Tree(_) => "ok",
     Outcome::Panic => "panic",
